@@ -26,9 +26,14 @@ ASSUMPTIONS = ["reference transcribed from the Bundesbank description; uncertain
 MAXTASKS = 200
 
 
+_DE = {}
+
+
 def de_banks():
     """reference view: bank code -> first registry entry (file order), German entries only"""
-    first = {}
+    if _DE:
+        return _DE
+    first = _DE
     for e in table.banks():
         if e.get("country_code") == "DE" and e.get("bank_code"):
             first.setdefault(e["bank_code"], e)
